@@ -12,19 +12,20 @@ def run_cases(ck, lines, name, nontrivial, variant=""):
     open(cp, "w").write("\n".join(lines) + "\n")
     outp = os.path.join(ck.work, name + ".ndjson")
     rc, out = vf.run_driver(DRV + variant, ["run", cp, outp, 16], timeout=1800,
-                            env={"ASAN_OPTIONS": "detect_leaks=0:abort_on_error=1", "TSAN_OPTIONS": "halt_on_error=1 report_signal_unsafe=0"})
+                            env={"ASAN_OPTIONS": "detect_leaks=0:abort_on_error=1", "TSAN_OPTIONS": "halt_on_error=1 report_signal_unsafe=0 report_thread_leaks=0 suppressions=" + os.path.join(vf.HARNESS, "tsan.supp")})
     if rc != 0:
         raise vf.Infra("%s failed: %s" % (DRV + variant, out[-2000:]))
     return judge(ck, outp, lines, name, nontrivial, diag=out)
 
 
-def run_dfs(ck, case, bound, maxexec, name, nontrivial):
+def run_dfs(ck, case, bound, maxexec, name, nontrivial, variant=""):
     outp = os.path.join(ck.work, name + ".ndjson")
-    rc, out = vf.run_driver(DRV, ["dfs", case, bound, maxexec, outp, 16], timeout=3000)
+    rc, out = vf.run_driver(DRV + variant, ["dfs", case, bound, maxexec, outp, 16], timeout=3000,
+                            env={"ASAN_OPTIONS": "detect_leaks=0:abort_on_error=1"})
     if rc != 0:
         raise vf.Infra("%s dfs failed: %s" % (DRV, out[-2000:]))
-    ck.note("dfs %s bound=%d: %s" % (case[:110], bound, out.strip()))
-    return judge(ck, outp, None, name, nontrivial, case=case + " | dfs %d" % bound)
+    ck.note("dfs%s %s bound=%d: %s" % (variant, case[:110], bound, out.strip().splitlines()[-1] if out.strip() else ""))
+    return judge(ck, outp, None, name, nontrivial, case=case + " | dfs %d" % bound, diag=out)
 
 
 def judge(ck, trace_path, lines, name, nontrivial, case=None, diag=""):
